@@ -188,6 +188,7 @@ def gen_net(rng, idx, profile):
         if last.kind in ("STRIDED_SLICE", "SPLIT"):
             # a slice is folded into its consumer as a read offset: windows with padding and fused activations go wrong
             avoid = set(allk) - {"conv1x1", "add_self", "add_skip", "mul_skip", "mul_const", "sub_const", "add_const", "quantize", "lrelu"}
+            # (a second slice, a strided convolution, a padded window or an activation right after a slice: see the findings)
         if last.kind in ("QUANTIZE", "RESHAPE", "PAD", "EXPAND_DIMS", "SQUEEZE") + ACTIVATION_LIKE or (last.opts and last.opts[1].get("FusedActivationFunction", 0)):
             avoid.add("relu")
         if last.kind == "PAD":
@@ -231,7 +232,7 @@ def corpus_net(rng, name):
 
     b = make_builder(rng, name, "int8")
     x = b.input({"known_pad_conv_reshape": [1, 4, 9, 4], "known_lut_reshape": [1, 3, 9, 8],
-                 "known_cascade_stale_row": [1, 10, 8, 8]}.get(name, [1, 6, 6, 8]), scale=0.05, zp=3)
+                 "known_cascade_stale_row": [1, 10, 8, 8], "known_slice_strided_conv": [1, 6, 6, 4]}.get(name, [1, 6, 6, 8]), scale=0.05, zp=3)
     if name == "known_slice_relu":
         y = b.pool(x, "MAX_POOL_2D", (3, 3), (1, 1), "SAME")
         s = b.strided_slice(y, [0, 1, 2, 0], [1, 5, 6, 8])
@@ -258,6 +259,12 @@ def corpus_net(rng, name):
     elif name == "known_pad_avgpool_act":
         p = b.pad(x, [[0, 0], [1, 0], [0, 1], [0, 0]])
         z = b.pool(p, "AVERAGE_POOL_2D", (2, 2), (1, 1), "VALID", act=1)
+    elif name == "known_slice_of_slice":
+        s1 = b.strided_slice(x, [0, 1, 2, 0], [1, 6, 6, 8])
+        z = b.strided_slice(s1, [0, 2, 1, 4], [1, 4, 3, 8])
+    elif name == "known_slice_strided_conv":
+        s1 = b.strided_slice(x, [0, 1, 2, 0], [1, 3, 4, 4])
+        z = b.conv(s1, 4, (1, 1), (4, 4), (1, 1), "SAME", act=0)
     elif name == "known_reshape_relu":
         z = b.unary("RELU6", b.reshape(x, [1, 4, 9, 8]))
     else:  # known_quantize_relu
@@ -306,7 +313,8 @@ def _worker(job):
         out.update(desc=net.describe(), opts=opts, src_ops=[o.kind for o in net.ops], dtype=net.tensors[net.inputs[0]].dtype,
                    src_inputs=list(net.inputs),
                    src_graph=[(o.kind, list(o.inputs), list(o.outputs), int((o.opts[1] if o.opts else {}).get("FusedActivationFunction", 0)),
-                               int((o.opts[1] if o.opts else {}).get("Padding", -1))) for o in net.ops])
+                               int((o.opts[1] if o.opts else {}).get("Padding", -1)),
+                               int((o.opts[1] if o.opts else {}).get("StrideW", 1))) for o in net.ops])
         with c01_lib.WeightCapture() as capture:
             res = pipeline.compile_net(data, opts, name=f"n{idx}")
         out.update(status=res.status, exc=(type(res.exc).__name__ + ": " + str(res.exc))[:300] if res.exc is not None else "",
@@ -370,33 +378,44 @@ def classify_failure(o, ans):
     network is consulted; the verdict itself is Lean's."""
     g = o.get("src_graph") or []
     producer, consumers = {}, {}
-    for kind, ins, outs, faf, pad in g:
+    for kind, ins, outs, faf, pad, stride_w in g:
         for t in outs:
             producer[t] = (kind, faf, ins)
         for t in ins:
             consumers.setdefault(t, []).append(kind)
+    if "do_not_fit_the_IFM_depth" in ans:
+        # slice folded into a convolution whose width stride is folded into the channels (fixup_strided_conv)
+        for kind, ins, outs, faf, pad, stride_w in g:
+            if kind == "CONV_2D" and stride_w > 1 and ins and ins[0] in producer and producer[ins[0]][0] in ("STRIDED_SLICE", "SPLIT"):
+                return "slice-folded-into-width-folded-strided-conv-keeps-unfolded-depth"
+        return None
     if "do_not_fit_kernel" in ans:
         # PAD folded into the padding of a VALID convolution / pool whose output is consumed through a RESHAPE
-        for kind, ins, outs, faf, pad in g:
+        for kind, ins, outs, faf, pad, stride_w in g:
             if kind in ("CONV_2D", "DEPTHWISE_CONV_2D", "AVERAGE_POOL_2D") and pad == 1 and ins and ins[0] in producer \
                     and producer[ins[0]][0] == "PAD" and any(c in MEMORY_ONLY for c in consumers.get(outs[0], [])):
                 return "pad-folded-into-conv-then-reshape-resets-ofm-shape"
         return None
     if "read_outside_region" in ans or ans.endswith("verdict=fail"):
         # table-lookup activation whose output is consumed through a RESHAPE
-        for kind, ins, outs, faf, pad in g:
+        for kind, ins, outs, faf, pad, stride_w in g:
             if kind in ("LEAKY_RELU", "LOGISTIC", "TANH", "HARD_SWISH") and any(c in MEMORY_ONLY for c in consumers.get(outs[0], [])):
                 return "lut-activation-then-reshape-resets-shapes"
     if not ans.endswith("verdict=fail"):
         return None
-    for kind, ins, outs, faf, pad in g:
+    for kind, ins, outs, faf, pad, stride_w in g:
+        if kind in ("STRIDED_SLICE", "SPLIT"):
+            src = ins[0] if kind == "STRIDED_SLICE" else ins[1]
+            if src in producer and producer[src][0] in ("STRIDED_SLICE", "SPLIT"):
+                return "slice-of-slice-read-offsets-not-accumulated"
+    for kind, ins, outs, faf, pad, stride_w in g:
         if kind in ("CONV_2D", "DEPTHWISE_CONV_2D", "MAX_POOL_2D", "AVERAGE_POOL_2D") and pad == 0 and ins and ins[0] in producer \
                 and producer[ins[0]][0] in ("STRIDED_SLICE", "SPLIT"):
             return "slice-read-offset-window-rows-not-clamped-to-slice"
-    for kind, ins, outs, faf, pad in g:
+    for kind, ins, outs, faf, pad, stride_w in g:
         if kind == "AVERAGE_POOL_2D" and pad == 1 and faf != 0 and ins and ins[0] in producer and producer[ins[0]][0] == "PAD":
             return "pad-folded-into-avgpool-fused-activation-clamps-with-zero-point-0"
-    for kind, ins, outs, faf, pad in g:
+    for kind, ins, outs, faf, pad, stride_w in g:
         if kind in RELUS and ins and ins[0] in producer:
             pk, pf, _pins = producer[ins[0]]
             if pk in ("STRIDED_SLICE", "SPLIT"):
@@ -449,7 +468,7 @@ def main():
     n = 50000 if ck.thorough else 6000
     k_inputs = 5 if ck.thorough else 4
     jobs = [(0, 0, "known_" + nm, k_inputs) for nm in ("slice_relu", "fused_act_relu", "pad_conv_reshape", "quantize_relu", "reshape_relu",
-                                                              "slice_window", "lut_reshape", "cascade_stale_row", "pad_avgpool_act")]
+                                                              "slice_window", "lut_reshape", "cascade_stale_row", "pad_avgpool_act", "slice_of_slice", "slice_strided_conv")]
     jobs += [(ck.seed, i, PROFILES[i % len(PROFILES)], k_inputs) for i in range(n)]
     ctx = multiprocessing.get_context("fork")
     with ProcessPoolExecutor(min(16, os.cpu_count() or 4), mp_context=ctx) as ex:
